@@ -137,6 +137,14 @@ class ANMLGrammar:
 
         string_const = Combine('"' + identifier + '"')
 
+        # Bounds of the numeric types, as the ANMLWriter prints them: a possibly
+        # negative integer for the integers; a possibly negative integer, decimal
+        # or fraction (5/2) for the reals.
+        int_bound = Combine(Optional(TK_MINUS) + integer)
+        real_bound = Combine(
+            Optional(TK_MINUS) + (real | integer) + Optional(TK_DIV + integer)
+        )
+
         annotation_item = float_const | boolean_const | string_const
 
         # Expression definitions
@@ -252,7 +260,7 @@ class ANMLGrammar:
                         (
                             (
                                 Suppress(TK_L_BRACKET)
-                                - integer.set_results_name("left_bound")
+                                - int_bound.set_results_name("left_bound")
                             )
                             | (
                                 Suppress(TK_L_PARENTHESIS)
@@ -263,7 +271,7 @@ class ANMLGrammar:
                         - Suppress(TK_COMMA)
                         - (
                             (
-                                integer.set_results_name("right_bound")
+                                int_bound.set_results_name("right_bound")
                                 - Suppress(TK_R_BRACKET)
                             )
                             | (
@@ -278,11 +286,28 @@ class ANMLGrammar:
                 TK_FLOAT.set_results_name("name")
                 - Optional(
                     Group(
-                        Suppress(TK_L_BRACKET)
-                        - real.set_results_name("left_bound")
+                        (
+                            (
+                                Suppress(TK_L_BRACKET)
+                                - real_bound.set_results_name("left_bound")
+                            )
+                            | (
+                                Suppress(TK_L_PARENTHESIS)
+                                - Suppress("-")
+                                - keyword(TK_INFINITY).set_results_name("left_bound")
+                            )
+                        )
                         - Suppress(TK_COMMA)
-                        - real.set_results_name("right_bound")
-                        - Suppress(TK_R_BRACKET)
+                        - (
+                            (
+                                real_bound.set_results_name("right_bound")
+                                - Suppress(TK_R_BRACKET)
+                            )
+                            | (
+                                keyword(TK_INFINITY).set_results_name("right_bound")
+                                - Suppress(TK_R_PARENTHESIS)
+                            )
+                        )
                     )
                 )
             )
